@@ -245,7 +245,18 @@ func monitorIn(id uint32, f mfrag, reply string) {
 		}
 		lib.Finding("C13", sig, fmt.Sprintf("all pieces of a %d-byte payload delivered (%d fragments), answer none", len(p), len(k.frags)))
 	} else if reply != want {
-		lib.Finding("C13", "frag6:payload", "rebuilt datagram differs from the original: "+trunc(reply))
+		var os, od, on int
+		var oh string
+		fmt.Sscanf(reply, "out %d %d %d %s", &os, &od, &on, &oh)
+		got, _ := lib.UnHex(oh)
+		switch {
+		case !bytes.Equal(got, p):
+			lib.Finding("C13", "frag6:payload", fmt.Sprintf("rebuilt payload differs from the original (%d vs %d bytes)", len(got), len(p)))
+		case on != nh:
+			lib.Finding("C13", "frag6:next-header", fmt.Sprintf("next header %d, the last fragment announces %d", on, nh))
+		default:
+			lib.Finding("C13", "frag6:header", "the result does not carry the addresses of the offset-0 fragment: "+trunc(reply))
+		}
 	}
 }
 
